@@ -295,7 +295,11 @@ impl<const K: usize> AffTree<K> {
         }
 
         for (label, node) in to_remove {
-            let _ = self.tree.try_remove_child(node, label);
+            // never remove the last child of a decision: a decision without children
+            // would be read as a terminal node, which alters the represented function
+            if self.tree.contains(node) && self.tree.num_children(node) > 1 {
+                let _ = self.tree.try_remove_child(node, label);
+            }
         }
 
         counter
